@@ -229,7 +229,7 @@ def main(tier, seed):
         traces_validated_against_impl=len(sub), model_mismatch_components=model_mismatch,
         hash_seed_runs=n_hash, input_distribution=stats, samples=samples or [dict(note='no sample')],
         source_blobs=repo_blob_ids(['sismic/interpreter/default.py', 'sismic/model/statechart.py', 'sismic/io/datadict.py']),
-        proof_info={k: info.get(k) for k in ('build_ok', 'ok', 'closed', 'axioms', 'forbidden_tokens', 'note')})
+        proof_info={k: info.get(k) for k in ('build_ok', 'ok', 'closed', 'axioms', 'forbidden_tokens', 'note', 'coqchk')})
     write_evidence(PROP, tier, seed, t0, cov,
                    ['DESIGN.md section 2 well-formedness of the generated charts',
                     'the metamorphic runs are a test of the implementation (they find failing inputs), not a proof; the '
